@@ -246,4 +246,60 @@ theorem ioWrites_frame (cfg : Cfg) (ws : List (List UInt8)) : ∀ s : St, Frame 
     · rename_i s' he; rw [he] at hf; exact Frame.trans hf (ih s')
 
 
+theorem expected_write (d : Dest) (b W : List UInt8) (hb : b ≠ []) :
+    expectedContent (d.write b) W = expectedContent d (b ++ W) := by
+  have hbW : (b ++ W).isEmpty = false := by
+    cases b with
+    | nil => exact absurd rfl hb
+    | cons x xs => rfl
+  cases hk : d.kind with
+  | other => simp [expectedContent, Dest.write, hk]
+  | regular =>
+    cases ha : d.flags.append with
+    | true =>
+      have h0 := overwriteAt_past_end d.content b 0
+      have h1 := overwriteAt_past_end d.content (b ++ W) 0
+      have h2 := overwriteAt_past_end (d.content ++ b) W 0
+      simp [zeros] at h0 h1 h2
+      simp only [expectedContent, Dest.write, hk, ha, hbW, if_true, h0, h1]
+      cases W with
+      | nil => simp
+      | cons w ws => simp [h2]
+    | false =>
+      simp only [expectedContent, Dest.write, hk, ha, hbW]
+      cases W with
+      | nil => simp
+      | cons w ws => simp [overwriteAt_overwriteAt]
+
+theorem plain_writes (cfg : Cfg) (ws : List (List UInt8)) :
+    ∀ s : St, s.trySparse = false →
+      (ioWrites cfg s ws).2 = false ∧
+      (ioWrites cfg s ws).1.dest.content = expectedContent s.dest ws.flatten := by
+  induction ws with
+  | nil =>
+    intro s _
+    cases hk : s.dest.kind <;> simp [ioWrites, expectedContent, hk]
+  | cons b bs ih =>
+    intro s hs
+    have hw : ioWrite cfg s b = (ioWriteBuf s b, false) := by
+      unfold ioWrite; simp [hs]
+    unfold ioWrites
+    rw [hw]
+    have hs' : (ioWriteBuf s b).trySparse = false := by
+      rw [(ioWriteBuf_frame s b).sparse]; exact hs
+    obtain ⟨i1, i2⟩ := ih (ioWriteBuf s b) hs'
+    refine ⟨i1, ?_⟩
+    simp only
+    rw [i2]
+    unfold ioWriteBuf
+    split
+    · rename_i he
+      have : b = [] := by simpa using he
+      subst this; simp
+    · rename_i he
+      have hne : b ≠ [] := by intro h; subst h; simp at he
+      simp only [List.flatten_cons]
+      exact expected_write s.dest b bs.flatten hne
+
+
 end XzVerif.Sparse
